@@ -180,4 +180,80 @@ theorem parallelInit_queue_cursors (c : PanelCfg) :
     exact ⟨e4, e1, by rw [e2]; simp, by rw [e3, e2, e1]; simp⟩
   exact key _ (by intro sh x; obtain ⟨f, s⟩ := x; simp)
 
+theorem initStep_sizes (c : PanelCfg) (ukids0 : Array Int) (a : InitAcc) :
+    (initStep c ukids0 a).sh.state.size = a.sh.state.size ∧ (initStep c ukids0 a).sh.ukids.size = a.sh.ukids.size
+      ∧ (initStep c ukids0 a).sh.fb.size = a.sh.fb.size := by
+  unfold initStep
+  simp only []
+  simp
+
+theorem initLoop_sizes (c : PanelCfg) (ukids0 : Array Int) :
+    ∀ fuel a, (initLoop c ukids0 fuel a).sh.state.size = a.sh.state.size ∧ (initLoop c ukids0 fuel a).sh.ukids.size = a.sh.ukids.size
+      ∧ (initLoop c ukids0 fuel a).sh.fb.size = a.sh.fb.size := by
+  intro fuel
+  induction fuel with
+  | zero => intro a; simp [initLoop]
+  | succ f ih =>
+    intro a
+    unfold initLoop
+    split
+    · have F := initStep_sizes c ukids0 a
+      have I := ih (initStep c ukids0 a)
+      exact ⟨I.1.trans F.1, I.2.1.trans F.2.1, I.2.2.trans F.2.2⟩
+    · simp
+
+theorem fold_frame (g : Sh → (Nat × Nat) → Sh)
+    (hg : ∀ sh x, (g sh x).state = sh.state ∧ (g sh x).ukids = sh.ukids ∧ (g sh x).fb = sh.fb ∧ (g sh x).spin = sh.spin)
+    (L : List (Nat × Nat)) : ∀ sh : Sh,
+    (L.foldl g sh).state = sh.state ∧ (L.foldl g sh).ukids = sh.ukids ∧ (L.foldl g sh).fb = sh.fb ∧ (L.foldl g sh).spin = sh.spin := by
+  induction L with
+  | nil => intro sh; simp
+  | cons x xs ih =>
+    intro sh
+    simp only [List.foldl_cons]
+    have I := ih (g sh x)
+    have G := hg sh x
+    exact ⟨I.1.trans G.1, I.2.1.trans G.2.1, I.2.2.1.trans G.2.2.1, I.2.2.2.trans G.2.2.2⟩
+
+/-- **The array-size clauses of `initOk` and `initOk2` proved for `ParallelInit` itself**, every input -/
+theorem parallelInit_sizes (c : PanelCfg) :
+    (parallelInit c).state.size = c.n + 1 ∧ (parallelInit c).ukids.size = c.n + 1
+      ∧ (parallelInit c).fb.size = c.n + 1 ∧ (parallelInit c).spin.size = c.n := by
+  unfold parallelInit
+  simp only []
+  have hfold : ∀ (L : List Nat) (u : Array Int),
+      (L.foldl (fun u i => u.setIfInBounds (getN c.etree i) (getZ u (getN c.etree i) + 1)) u).size = u.size := by
+    intro L; induction L with
+    | nil => intro u; rfl
+    | cons x xs ih => intro u; simp only [List.foldl_cons]; rw [ih]; simp
+  have hus := hfold (List.range c.n) (Array.replicate (c.n + 1) (0 : Int))
+  simp only [Array.size_replicate] at hus
+  generalize (List.range c.n).foldl _ (Array.replicate (c.n + 1) (0 : Int)) = ukids0 at hus ⊢
+  have F := initLoop_sizes c ukids0 c.n
+    { sh :=
+        { state := Array.replicate (c.n + 1) 0, typ := Array.replicate c.n 0, size := Array.replicate (c.n + 1) 0,
+          ukids := ukids0, fb := Array.replicate (c.n + 1) 0, queue := Array.replicate c.n 0, head := 0, tail := 0,
+          count := 0, tasksRemain := 0, spin := Array.replicate c.n 0, numSplits := 0 },
+      i := 0, rs := relaxSnode c.n c.relax c.etree, doSplit := false }
+  have F2 := initLoop_frame c ukids0 c.n
+    { sh :=
+        { state := Array.replicate (c.n + 1) 0, typ := Array.replicate c.n 0, size := Array.replicate (c.n + 1) 0,
+          ukids := ukids0, fb := Array.replicate (c.n + 1) 0, queue := Array.replicate c.n 0, head := 0, tail := 0,
+          count := 0, tasksRemain := 0, spin := Array.replicate c.n 0, numSplits := 0 },
+      i := 0, rs := relaxSnode c.n c.relax c.etree, doSplit := false }
+  simp only [] at F F2
+  generalize initLoop c ukids0 c.n _ = a at F F2 ⊢
+  generalize hsh1 : ({ a.sh with size := a.sh.size.setIfInBounds c.n 1, state := a.sh.state.setIfInBounds c.n UNREADY } : Sh) = sh1
+  have h1 : sh1.state.size = c.n + 1 ∧ sh1.ukids.size = c.n + 1 ∧ sh1.fb.size = c.n + 1 ∧ sh1.spin.size = c.n := by
+    subst hsh1; simp only [Array.size_setIfInBounds]; rw [F.1, F.2.1, F.2.2, F2.2.2.2.2]; simp [hus]
+  have key : ∀ g : Sh → (Nat × Nat) → Sh,
+      (∀ sh x, (g sh x).state = sh.state ∧ (g sh x).ukids = sh.ukids ∧ (g sh x).fb = sh.fb ∧ (g sh x).spin = sh.spin) →
+      ((relaxSnode c.n c.relax c.etree).foldl g sh1).state.size = c.n + 1 ∧ ((relaxSnode c.n c.relax c.etree).foldl g sh1).ukids.size = c.n + 1
+      ∧ ((relaxSnode c.n c.relax c.etree).foldl g sh1).fb.size = c.n + 1 ∧ ((relaxSnode c.n c.relax c.etree).foldl g sh1).spin.size = c.n := by
+    intro g hg
+    have E := fold_frame g hg (relaxSnode c.n c.relax c.etree) sh1
+    rw [E.1, E.2.1, E.2.2.1, E.2.2.2]
+    exact h1
+  exact key _ (by intro sh x; obtain ⟨f, s⟩ := x; simp)
+
 end Slu
